@@ -44,6 +44,13 @@ M = [
  ("M27", "C16", ["C16", "C03"], "lexical-write-integer/src/compact.rs", "        while value >= radix {", "        while value > radix {", "compact integer writer: leading part equal to the radix written as one digit"),
  ("M28", "C13", ["C13"], "lexical-util/src/skip.rs", "        slc.get(prev).map_or(false, |&x| $self.is_digit(x)) &&\n            slc.get(next).map_or(false, |&x| $self.is_digit(x))\n    }};\n\n    (@first $self:ident) => {\n        is_i!(@first $self, $self.byte.index)",
   "        slc.get(prev).map_or(false, |&x| $self.is_digit(x)) ||\n            slc.get(next).map_or(false, |&x| $self.is_digit(x))\n    }};\n\n    (@first $self:ident) => {\n        is_i!(@first $self, $self.byte.index)", "internal-only separator formats: leading/trailing separators accepted"),
+ ("M31", "C02", ["C02"], "lexical-write-float/src/table_dragonbox.rs", None, None, "one Dragonbox 128-bit power of five (5^20): floats whose decimal exponent selects that row"),
+ ("M32", "C02", ["C02"], "lexical-write-float/src/table_grisu.rs", None, None, "one Grisu cached power (compact builds only)"),
+ ("M33", "C03", ["C03"], "lexical-write-integer/src/table_decimal.rs", "b'4', b'6', b'4', b'7',", "b'4', b'6', b'4', b'1',", "decimal integers with the aligned digit pair 47"),
+ ("M34", "C03", ["C03"], "lexical-util/src/div128.rs", "moderate_u128_divrem(n, 3909821048582988049, 200683792729517998822275406364627986707, 61)",
+  "moderate_u128_divrem(n, 3909821048582988049, 200683792729517998822275406364627986706, 61)", "u128 values above 2^64 written in radix 7"),
+ ("M35", "C04", ["C04"], "lexical-util/src/num.rs", "        if radix <= 16 {\n            mem::size_of::<Self>() * 2 - Self::IS_SIGNED as usize",
+  "        if radix <= 17 {\n            mem::size_of::<Self>() * 2 - Self::IS_SIGNED as usize", "radix 17: two-digit u8 inputs above 255 parsed without an overflow check"),
  ("M29", "C05", ["C05"], "lexical-parse-float/src/table_bellerophon_radix.rs", None, None, "one large-power mantissa of radix 7"),
  ("M30", "C07", ["C07"], "lexical-write-float/src/radix.rs", "                            if idx < format.radix() {", "                            if idx <= format.radix() {", "runs of the top digit in generic radices (reverts the carry fix)"),
 ]
@@ -74,6 +81,18 @@ def custom(mid, src):
         # radix 7 digit count: off by one at one power
         m = re.search(r"fn digit_count\(self, radix: u32\) -> usize \{", src)
         return None
+    if mid == "M31":
+        m = re.search(r"\(0x([0-9a-f]{16}), 0x[0-9a-f]{16}\), // 5\^20\n", src)
+        if not m:
+            return None
+        v = int(m.group(1), 16) ^ (1 << 24)
+        return src[:m.start(1)] + ("%016x" % v) + src[m.end(1):]
+    if mid == "M32":
+        m = re.search(r"0x([0-9a-f]{16}), // 10\^-28\n", src)
+        if not m:
+            return None
+        v = int(m.group(1), 16) ^ (1 << 24)
+        return src[:m.start(1)] + ("%016x" % v) + src[m.end(1):]
     if mid == "M29":
         m = re.search(r"const BASE7_LARGE_MANTISSA: \[u64; \d+\] = \[\n(.*?)\];", src, re.S)
         if not m:
